@@ -1327,7 +1327,7 @@ func (p *wat2cWorker) buildFunc_ins(w io.Writer, fn *ast.Func, stk *valueTypeSta
 		len := stk.Pop(token.I32)
 		src := stk.Pop(token.I32)
 		dst := stk.Pop(token.I32)
-		fmt.Fprintf(w, "%smemcpy(&%s_memory[R%d.i32], &%s_memory[R%d.i32], R%d.i32); // %s\n",
+		fmt.Fprintf(w, "%smemmove(&%s_memory[R%d.i32], &%s_memory[R%d.i32], R%d.i32); // %s\n",
 			indent, p.opt.Prefix, dst, p.opt.Prefix, src, len,
 			insString(i),
 		)
